@@ -335,7 +335,9 @@ func (k Keeper) ConvertGasFeesToUsdc(ctx sdk.Context, baseCurrency string, addre
 			continue
 		}
 
-		tokenOutAmount, err := k.amm.InternalSwapExactAmountIn(ctx, address, address, pool, tokenIn, baseCurrency, math.ZeroInt(), math.LegacyZeroDec())
+		// swap on a cache context: a conversion that fails must leave nothing behind
+		cacheCtx, write := ctx.CacheContext()
+		tokenOutAmount, err := k.amm.InternalSwapExactAmountIn(cacheCtx, address, address, pool, tokenIn, baseCurrency, math.ZeroInt(), math.LegacyZeroDec())
 		if err != nil {
 			// Continue as we can swap it when this amount is higher
 			if err == ammtypes.ErrTokenOutAmountZero {
@@ -349,8 +351,12 @@ func (k Keeper) ConvertGasFeesToUsdc(ctx sdk.Context, baseCurrency string, addre
 				})
 				continue
 			}
-			return sdk.Coins{}, err
+			// any other failure (e.g. no live oracle price for the fee denom) must not fail the block:
+			// skip this denom, it is converted once the swap works again
+			ctx.Logger().Error("Skipping fee conversion for denom: " + tokenIn.Denom + ": " + err.Error())
+			continue
 		}
+		write()
 
 		// Swapped USDC coin
 		swappedCoins := sdk.NewCoins(sdk.NewCoin(baseCurrency, tokenOutAmount))
